@@ -211,13 +211,23 @@ def oracle_es_children(args):
     gen = mudslide.TrajGenConst(args["x0"], args["k"], 0, seed=args["seed"])
     b = mudslide.BatchedTraj(model, gen, mudslide.EvenSamplingTrajectory, samples=1, dt=args["dt"],
                              bounds=[-args["box"], args["box"]], max_steps=args["maxsteps"], spawn_stack=args["stack"],
-                             quadrature=args["quadrature"])
+                             quadrature=args["quadrature"], trace_every=int(args.get("every", 1)))
     tm = b.compute()
     problems = []
+    every = int(args.get("every", 1))
     for tr in tm.traces:
         snaps = list(tr)
         if tr.weight == 0.0 or not snaps:
             continue
+        # the step counter of every trajectory of the tree - children included - runs on from its parent's: nobody takes more than
+        # max_steps steps counted from the root's start, and snapshots sit on the steps divisible by trace_every (plus the final one)
+        t0_ = snaps[0]["time"]
+        steps_ = [int(round((s_["time"] - t0_) / args["dt"])) for s_ in snaps]
+        if steps_[-1] > args["maxsteps"]:
+            problems.append("a trajectory of the tree ran %d steps although max_steps = %d (t_end = %r)" % (steps_[-1], args["maxsteps"], snaps[-1]["time"]))
+        off = [st_ for st_ in steps_[:-1] if st_ % every != 0]
+        if off:
+            problems.append("trace_every=%d: snapshots logged at steps %r" % (every, off[:4]))
         xs = [float(s["position"][0]) for s in snaps]
         ins = [(-args["box"] < x < args["box"]) for x in xs]
         nsteps = int(round((snaps[-1]["time"] - snaps[0]["time"]) / args["dt"]))
@@ -368,6 +378,11 @@ def run(ctx):
     for i in range(ctx.budget(3, 30)):
         gen.append(dict(model=["simple", "dual", "extended"][i % 3], x0=-4.0, k=float(rng.uniform(10, 25)), seed=int(rng.integers(1, 10 ** 6)),
                         dt=20.0, box=3.0, maxsteps=int(rng.integers(12, 40)), stack=[int(rng.integers(3, 7))], quadrature="midpoint"))
+    # max_steps is what ends the run (wide box), children are born well before it; also with a logging stride
+    for i in range(ctx.budget(4, 30)):
+        gen.append(dict(model=["simple", "dual"][i % 2], x0=-3.0, k=float(rng.uniform(10, 20)), seed=int(rng.integers(1, 10 ** 6)),
+                        dt=float(rng.choice([5.0, 10.0])), box=60.0, maxsteps=int(rng.integers(100, 160)), stack=[int(rng.integers(3, 6))],
+                        quadrature=["gl", "midpoint"][i % 2], every=[1, 3, 7, 1][i % 4]))
     for a in corpus + gen:
         ok, obs, req, text = oracle_es_children(a)
         ctx.case(("es-children", a["model"], a["quadrature"], a["maxsteps"] < 3000))
